@@ -3,14 +3,14 @@
 package props
 
 import (
-	"strconv"
-	"slices"
 	"cmp"
 	"fmt"
 	"math"
 	"math/rand/v2"
 	"runtime"
+	"slices"
 	"sort"
+	"strconv"
 
 	"github.com/creachadair/mds/slice"
 	"verif/harness/fw"
